@@ -84,13 +84,13 @@ BOUNDED_TRUSTED = [
 ]
 
 PROPS.update({
-    "C06": _p("model_checking", [], "bounded-exhaustive native driver over frequency profiles x item shapes x merge generations; BitIterator/Decoder/Encoder are exercised through the public API only.",
+    "C06": _p("model_checking", ["codecs"], "bounded-exhaustive native driver over frequency profiles x item shapes x merge generations; BitIterator/Decoder/Encoder are exercised through the public API only.",
               trusted=BOUNDED_TRUSTED, dropped=["HuffmanContainer is built on BTreeMap/BinaryHeap, which neither Verus (no spec) nor Kani (intractable) can execute; no function of it is under a deductive contract"]),
-    "C07": _p("model_checking", [], "bounded-exhaustive native driver over training sets x probe strings x merge generations x clear.",
+    "C07": _p("model_checking", ["codecs"], "bounded-exhaustive native driver over training sets x probe strings x merge generations x clear.",
               trusted=BOUNDED_TRUSTED, dropped=["DictionaryCodec is built on BTreeMap and a heavy-hitter summary; no function of it is under a deductive contract"]),
     "C09": _p("model_checking", [], "twin harnesses (clone / clone_from, then divergence) over 12 compositions + FlatStack, and two program-text obligations (field completeness, no shared-state primitives).",
               scans=["clone_field_complete", "no_shared_state"], trusted=BOUNDED_TRUSTED, dropped=["Clone on type parameters has no usable Verus specification"]),
-    "C14": _p("model_checking", [], "IntoOwned laws on read items of slice / columns / option / result / nested-slice regions and Huffman Wrapped items, both representations, five prior clone_onto targets.",
+    "C14": _p("model_checking", ["regions"], "IntoOwned laws on read items of slice / columns / option / result / nested-slice regions and Huffman Wrapped items, both representations, five prior clone_onto targets.",
               trusted=BOUNDED_TRUSTED, dropped=["IntoOwned bodies are iterator adapters / std ToOwned calls outside the Verus dialect"]),
     "C15": _p("model_checking", [], "==, partial_cmp, cmp of read items against the owned vectors for all triples of short vectors in every representation; Wrapped raw versus encoded.",
               trusted=BOUNDED_TRUSTED, dropped=["ReadSlice comparisons delegate to std's iterator comparison, which Verus cannot read"]),
@@ -121,6 +121,10 @@ CEX = {
     "columns.": "columns_ragged",
     "result.ResultRegion": "fanout_roundtrip",
     "slice.SliceRegion": "slice_roundtrip",
+    "huffman.BitIterator": "huffman_quick",
+    "codec.": "dictionary_quick",
+    "option.Option.IntoOwned": "into_owned_laws",
+    "result.Result.IntoOwned": "into_owned_laws",
 }
 
 
